@@ -22,6 +22,7 @@ def decEntry (s : String) : Path × Val :=
   match s.splitOn "/" with
   | ["L", p, b] => (decStrs p, .leaf (decStrs b))
   | ["D", p] => (decStrs p, .dict)
+  | ["S", p, v] => (decStrs p, .leaf (codeScalar (decStr v)))   -- a splicer_code block scalar
   | ["M", p, items] =>
     -- a splicer_code list with YAML nulls: items joined by '&', "n" = None, "s<str>" = string
     (decStrs p, .leaf (codeLines (if items == "E" then [] else
